@@ -28,9 +28,14 @@ func TestReplay(t *testing.T) { vt.RunReplay(t) }
 const property = "C06"
 
 // ---------------------------------------------------------------------------
-// known findings: a finding counts as open if known_findings.json lists it
-// as open, or if it is proposed in pending/C06-known-findings.json (until the
-// lead has moved the entries).
+// known findings
+//
+// Every failure this check found on the pinned tree has a small repair
+// (pending/C06-*.patch, witnesses in replays/C06/), so no region is excluded.
+// Should a finding be recorded later: a finding counts as open if
+// vt.FindingOpen(id) says so or if pending/C06-known-findings.json lists it
+// (see findingOpen), the generator must then avoid the region by construction
+// and report it through Prop.Excluded.
 
 var (
 	pendingOnce sync.Once
